@@ -65,6 +65,10 @@ type rwOp struct {
 	// Lanes (ack): the target runs the tiered replication stack and reports per-priority states next to the overall
 	// level (which is their minimum): 1 = its high-priority lane is ahead by N, 2 = its low-priority lane is ahead by N
 	Lanes int `json:"lanes,omitempty"`
+	// Gate (emit): the receiver that reads this batch (the first receiver to get there) is parked right after its first
+	// successful hand-off to a target ("receiver.handoff"), with the rest of the batch not handed over yet, until an
+	// "ungate" op or the end of the history: a receiver goroutine that is not scheduled for a while
+	Gate bool `json:"gate,omitempty"`
 }
 
 type rwTaskSpec struct {
@@ -333,6 +337,7 @@ type rwWorld struct {
 	nodes        []*rwNode
 	gates        *c08Gates
 	windowTarget int // target index whose dying sender is parked at "sender.closed" (-1: none)
+	gateArmed    bool // a receiver is (to be) parked at "receiver.handoff"
 	c        rwCase
 	sm       *shardManagerImpl
 	lifetime context.Context
@@ -413,6 +418,17 @@ func (w *rwWorld) windowParked() bool {
 	w.gates.mu.Lock()
 	defer w.gates.mu.Unlock()
 	return w.gates.parked["sender.closed"]
+}
+
+// openGate lets a receiver parked between two hand-offs run on.
+func (w *rwWorld) openGate() {
+	if w.gates != nil && w.gateArmed {
+		if w.gates.release("receiver.handoff") {
+			w.classes["receiver_was_parked_between_the_hand_offs_of_one_batch"]++
+		}
+		w.gateArmed = false
+		vfQuiesce()
+	}
 }
 
 // closeWindow lets the parked sender finish its shutdown.
